@@ -57,7 +57,9 @@ let () =
         let n = str_ n in
         let r = atom r in
         let is_variant = String.length r > 8 && String.sub r 0 8 = "variant:" in
+        let is_default = String.length r >= 8 && String.sub r 0 8 = "default:" in
         let o = if r = "event" then M.c15_event_fn n
+                else if is_default then M.c15_default_case (explode (String.sub r 8 (String.length r - 8))) n
                 else if is_variant then M.c15_variant (rule_of_name (String.sub r 8 (String.length r - 8))) n
                 else M.c15_apply (rule_of_name r) n in
         let kf = false in   (* no recorded class is left *)
